@@ -116,10 +116,14 @@ def _canon(s):
     return s.replace(' ', '').replace('(', '').replace(')', '')
 
 
+TESTS = {}
+
+
 def growth_needs(tus, pairs):
     """{counter key: set of canonical 'needed element count' expressions the owner's growth tests compare it with}."""
     counters = {c for v in pairs.values() for c in v}
     needs = {}
+    TESTS.clear()
     for c, tu in sorted(tus.items()):
         for fname, fn in tu.funcs.items():
             if cfront.basename(fn.get('_locfile') or fn.get('_file')) != c:
@@ -145,6 +149,9 @@ def growth_needs(tus, pairs):
                 for i in (0, 1):
                     ck = _member_key(sides[i])
                     if ck in counters:
+                        # the test read as `capacity OP need`
+                        op = cond['opcode'] if i == 0 else {'<': '>', '>': '<', '<=': '>=', '>=': '<=', '!=': '!='}[cond['opcode']]
+                        TESTS.setdefault(ck, []).append((op, 'src/%s:%s %s' % (c, line_of(st), fname), render(cond)))
                         other = render(sides[1 - i])
                         vals = assigns.get(other, {_canon(other)})
                         needs.setdefault(ck, set()).update(vals)
@@ -178,4 +185,12 @@ def rule_capacity_trim(ctx, rule, cfile, fname):
                        % (fname, ck[0].replace('struct ', ''), ck[1], render(e['inner'][1]), ' or '.join(sorted(needs.get(ck, {'?'})))))
         else:
             samples.append('%s trims %s to %s, one of the owner\'s sizes %s' % (where, ck[1], v, sorted(needs[ck])))
+        # lowering the counter from any value >= need down to need must not change the outcome of the owner's growth test:
+        # only `capacity < need` has that property (`!=` and `<=` fire for a larger-than-needed capacity and not for the trimmed one)
+        for op, tw, txt in TESTS.get(ck, []):
+            n += 1
+            if op != '<':
+                ctx.report(rule, '%s:%s:test' % (fname, ck[1]), tw,
+                           'the owner decides with %s whether to reallocate and reset the arrays guarded by %s, and %s (%s) lowers that counter to the needed size: whether a snapshot was written or served at that moment now decides whether the reset happens (after a removal the untrimmed capacity differs from the need, the trimmed one does not)'
+                           % (txt, ck[1], fname, where))
     return n, samples
